@@ -181,6 +181,8 @@ def core_pool():
     c.append(make([p('i32'), p('Stamped'), f('Stamped')], tags={'nontrivial', 'stamped'}))
     c.append(make([f('Stamped'), p('u32'), p('Stamped'), p('u8')], tags={'nontrivial', 'stamped'}))
     c.append(make([p('Stamped', 8), p('u8'), v('u16'), f('Stamped')], tags={'nontrivial', 'stamped', 'layout', 'alignedfirst'}))
+    c.append(make([f('bool'), p('i32')], tags={'memcmp', 'lowalign'}))
+    c.append(make([f('bool'), p('float'), p('u8'), v('bool')], tags={'memcmp', 'lowalign'}))
     # runs of byte-comparable fields around FixedSize / VaryingSize spans (what the comparison fast paths coalesce)
     c.append(make([f('u8'), p('u8'), f('u8')], tags={'memcmp', 'lowalign'}))
     c.append(make([f('u8'), p('u8'), v('u8')], tags={'memcmp', 'lowalign'}))
